@@ -166,3 +166,13 @@ C("C03", "exploration",
   "coefficients equal the standard formulas recomputed from the geometry, |r| <= 1; output energy <= |pol|^2 input energy; returned vectors "
   "unit, orthogonal, transverse. Open finding K2 (exactly vertical rays).",
   "layered-stack transmissions may exceed amplitude 1 (power flux conserved): passivity not demanded there", "DESIGN.md §4 C03")
+C("C10", "exploration",
+  "deviation-bounded exhaustive configuration lattice of the real kernel (every coordinate alone and every pair, quick; triples thorough), each delivered signal recomputed from the public pieces",
+  "Nine configuration coordinates (7 tracer x ice combinations covering all four shipped tracers, 3 Askaryan models, 5 generators incl. random ones "
+  "under an owned stream and a FileGenerator, off-cone cut, weight cut, attenuation interpolation, writer none/recording stub/real HDF5, triggers "
+  "none/function/dict, antenna sets incl. an antenna in the air): all configurations within deviation bound 2 (250; thorough 3) of the base, two "
+  "consecutive events each. Per antenna: exactly one new signal per ray solution of a freshly built tracer for every particle passing the weight "
+  "cuts, on signal_times + tof, all-zero iff off-cone, else equal to apply_response(propagate(fresh pulse)); the ray paths and polarizations "
+  "handed to the writer line up one-to-one with those signals; event identity; events_thrown; trigger result == supplied function(s); "
+  "a real HDF5 file written through the kernel is readable with the right event count.",
+  "the building blocks used by the oracle are themselves subject of C01-C08", "DESIGN.md §4 C10")
